@@ -318,3 +318,47 @@ def oracles_C09(ctx, hints):
     return fails
 
 ORACLES["accept_exact"] = check_accept_exact
+
+
+# =================================================================================== C15 (IENA time of year)
+def _soy():
+    import time, AcraNetwork.IENA as iena
+    return int(time.mktime(iena.IENA()._startOfYear.timetuple()))
+
+def iena_time_cases(ctx):
+    rng = ctx.rng
+    soy = _soy()
+    year = 366 * 86400
+    secs = [0, 1, 59, 86399, 86400, year - 1] + [rng.randrange(0, year) for _ in range(ctx.scale(3000, 200000))]
+    if ctx.tier == "thorough":
+        secs += list(range(0, year, 97))
+    out = []
+    for d in secs:
+        for us in (0, 1, 499999, 500000, 999999, rng.randrange(0, 1000000)):
+            out.append((soy + d, us, soy))
+    return out
+
+def corr_C15(ctx):
+    return [gen.F("iena.time", str(ts), str(us), str(soy)) for ts, us, soy in iena_time_cases(ctx)]
+
+def check_iena_time(args):
+    import AcraNetwork.IENA as iena
+    o = iena.IENA()
+    o.setPacketTime(args["ts"], args["us"])
+    g = o._getPacketTime()
+    if g != args["ts"]:
+        return "IENA setPacketTime(%d, %d) then _getPacketTime() gives %d" % (args["ts"], args["us"], g)
+    return None
+
+def oracles_C15(ctx, hints):
+    fails, n = [], 0
+    for ts, us, soy in iena_time_cases(ctx):
+        n += 1
+        w = check_iena_time({"ts": ts, "us": us})
+        if w:
+            fails.append(Failure("iena_time", {"ts": ts, "us": us}, w, {"class": "IENA", "check": "time_inverse"}))
+            break
+    ctx.count("oracle_evaluations", n)
+    return fails
+
+ORACLES["iena_time"] = check_iena_time
